@@ -419,6 +419,7 @@ type Case struct {
 	Mode   string `json:"mode"`   // "" | "cuts" | "readonly"
 	Stream string `json:"stream"` // hex, for readonly
 	Sched  []int  `json:"sched"`  // read-size schedule for the source
+	Scheds map[string][]int `json:"scheds"` // several schedules; a negative first element = deliver EOF with the last data
 	Cuts   []int  `json:"cuts"`
 }
 
@@ -449,6 +450,9 @@ type Out struct {
 	Read    *ReadOut    `json:"read,omitempty"`
 	Cuts    map[string]*ReadOut `json:"cuts,omitempty"`
 	WCount  uint64      `json:"wcount"`
+	RCount  uint64      `json:"rcount"`
+	Steps   []StepOut   `json:"steps,omitempty"`
+	Scheds  map[string]*ReadOut `json:"scheds,omitempty"`
 }
 
 func (e *Env) writerOpts(o *Opts) pkg.WriterOptions {
@@ -686,7 +690,124 @@ func readUvarint(r io.ByteReader) (uint64, error) {
 	return 0, errors.New("overflow")
 }
 
+// ---------------------------------------------------------------- C06: one stream, interleaved writer and reader
+type growSrc struct {
+	sink  *ChunkSink
+	off   int
+	Reads int
+	Bytes int
+}
+
+func (g *growSrc) Read(p []byte) (int, error) {
+	g.Reads++
+	if len(p) == 0 {
+		return 0, nil
+	}
+	if g.off >= len(g.sink.All) {
+		return 0, io.EOF
+	}
+	n := copy(p, g.sink.All[g.off:])
+	g.off += n
+	g.Bytes += n
+	return n, nil
+}
+
+type StepOut struct {
+	Op    string `json:"op"`
+	Res   string `json:"res"`
+	Reads int    `json:"reads"`
+	Avail int    `json:"avail"` // bytes emitted by the writer so far
+}
+
+func (e *Env) RunC06(c *Case) (out *Out) {
+	out = &Out{ID: c.ID}
+	defer func() {
+		if r := recover(); r != nil {
+			out.Panic = fmt.Sprint(r)
+		}
+	}()
+	sink := &ChunkSink{}
+	w, err := e.Roots[c.Root].NewWriter(sink, e.writerOpts(&c.Opts))
+	if err != nil {
+		out.WErr = err.Error()
+		return out
+	}
+	wv := reflect.ValueOf(w)
+	rec := wv.Elem().FieldByName("Record").Addr()
+	rootT := &Type{K: "struct", ID: e.structID(c.Root)}
+	src := &growSrc{sink: sink}
+	var rv, rrec reflect.Value
+	for _, op := range c.Ops {
+		name := op["op"].(string)
+		switch name {
+		case "set":
+			so := &setOpts{}
+			if fz, ok := op["freeze"].(bool); ok {
+				so.freeze = fz
+			}
+			e.set(rootT, rec, op["v"], so)
+		case "w":
+			out.Written = append(out.Written, e.DumpRoot(c.Root, rec))
+			if err := call(wv, "Write")[0]; !err.IsNil() {
+				out.WErr = err.Interface().(error).Error()
+			}
+			out.Steps = append(out.Steps, StepOut{Op: "w", Avail: len(sink.All)})
+		case "f":
+			if err := call(wv, "Flush")[0]; !err.IsNil() {
+				out.WErr = err.Interface().(error).Error()
+			}
+			out.Steps = append(out.Steps, StepOut{Op: "f", Avail: len(sink.All)})
+		case "open":
+			before := src.Reads
+			rd, err := e.Roots[c.Root].NewReader(src)
+			st := StepOut{Op: "open", Avail: len(sink.All)}
+			if err != nil {
+				st.Res = errClass(err)
+			} else {
+				st.Res = "ok"
+				rv = reflect.ValueOf(rd)
+				rrec = rv.Elem().FieldByName("Record").Addr()
+			}
+			st.Reads = src.Reads - before
+			out.Steps = append(out.Steps, st)
+		case "r", "rf":
+			st := StepOut{Op: name, Avail: len(sink.All)}
+			if !rv.IsValid() {
+				st.Res = "noreader"
+				out.Steps = append(out.Steps, st)
+				continue
+			}
+			before := src.Reads
+			res := call(rv, "Read", pkg.ReadOptions{TillEndOfFrame: name == "rf"})
+			st.Reads = src.Reads - before
+			if res[0].IsNil() {
+				st.Res = "rec:" + e.DumpRoot(c.Root, rrec) + "~" + strconv.FormatUint(e.rootMask(c.Root, rrec), 10)
+			} else {
+				err := res[0].Interface().(error)
+				if err == pkg.ErrEndOfFrame {
+					st.Res = "eoframe"
+				} else {
+					st.Res = errClass(err)
+				}
+			}
+			out.Steps = append(out.Steps, st)
+		}
+	}
+	out.Stream = hex.EncodeToString(sink.All)
+	for _, ch := range sink.Chunks {
+		out.Chunks = append(out.Chunks, len(ch))
+	}
+	if rv.IsValid() {
+		out.RCount = call(rv, "RecordCount")[0].Uint()
+	}
+	out.WCount = call(wv, "RecordCount")[0].Uint()
+	return out
+}
+
 func (e *Env) RunCase(c *Case) (out *Out) {
+	if c.Mode == "c06" {
+		return e.RunC06(c)
+	}
 	out = &Out{ID: c.ID}
 	var stream []byte
 	if c.Mode == "readonly" {
@@ -749,6 +870,17 @@ func (e *Env) RunCase(c *Case) (out *Out) {
 		src = &schedReader{b: append([]byte{}, stream...), sched: c.Sched}
 	}
 	out.Read = e.ReadAll(c.Root, src)
+	if len(c.Scheds) > 0 {
+		out.Scheds = map[string]*ReadOut{}
+		for name, sc := range c.Scheds {
+			withEOF := false
+			if len(sc) > 0 && sc[0] < 0 {
+				withEOF = true
+				sc = sc[1:]
+			}
+			out.Scheds[name] = e.ReadAll(c.Root, &schedReader{b: append([]byte{}, stream...), sched: sc, withEOF: withEOF})
+		}
+	}
 	if c.Mode == "cuts" || len(c.Cuts) > 0 {
 		out.Cuts = map[string]*ReadOut{}
 		cuts := c.Cuts
